@@ -122,4 +122,10 @@ def families(tier, seed):
                                        rng, tier, n_ssrc=rng.choice([1, 2]), steps=(120 if tier == "quick" else 700),
                                        common_roc=rng.choice([None, 1, 1, 0x1234]), rekey=0.04)[0])
                                  for k in range(10 if tier == "quick" else 60)],
-                   monitor=lambda s, c: __import__("lib.apigen", fromlist=["x"]).replay_monitor(s, c, False))]
+                   monitor=lambda s, c: __import__("lib.apigen", fromlist=["x"]).replay_monitor(s, c, False)),
+            # index synchronisation through the AEAD functions (common ROC, damaged copies first, re-keys)
+            Family("gcm-common-roc", [(f"gcroc-{k}", __import__("lib.apigen", fromlist=["x"]).with_aead(
+                                           __import__("lib.apigen", fromlist=["x"]).replay_history, random.Random(seed * 1000 + 106 + k), tier, n_ssrc=1,
+                                           steps=(100 if tier == "quick" else 600), common_roc=[1, 0, 0x1234][k % 3], damaged=0.25, rekey=(0.04 if k % 2 else 0.0))[0])
+                                      for k in range(6 if tier == "quick" else 45)],
+                   monitor=lambda s, c: __import__("lib.apigen", fromlist=["x"]).replay_monitor(s, c, False), config="openssl")]
